@@ -583,3 +583,101 @@ fn count_refs(toks: &[Tok], n_refs: &mut usize, n_irr: &mut usize) {
         }
     }
 }
+
+/// Dynamic header with explicit choices: `rle_style` as in `rle_lengths`, and exact HLIT / HDIST / HCLEN
+/// values (clamped to what the lengths need). Returns false if the request cannot be honoured.
+pub fn write_dynamic_header_exact(
+    r: &mut Rng,
+    w: &mut BitW,
+    ll: &[u8],
+    dl: &[u8],
+    rle_style: u32,
+    hlit: usize,
+    hdist: usize,
+    hclen_extra: usize,
+) -> bool {
+    let mut need_lit = 286;
+    while need_lit > 257 && ll[need_lit - 1] == 0 {
+        need_lit -= 1;
+    }
+    let mut need_dist = 30;
+    while need_dist > 1 && dl[need_dist - 1] == 0 {
+        need_dist -= 1;
+    }
+    if hlit < need_lit || hlit > 286 || hdist < need_dist || hdist > 30 {
+        return false;
+    }
+    let mut all: Vec<u8> = ll[..hlit].to_vec();
+    all.extend_from_slice(&dl[..hdist]);
+    let rle = rle_lengths(r, &all, rle_style);
+    let mut cu = vec![false; 19];
+    let mut cf = vec![0u32; 19];
+    for &(s, _) in &rle {
+        cu[s as usize] = true;
+        cf[s as usize] += 1;
+    }
+    let cl = lengths_for_used(r, &cu, &cf, 7, true, 0);
+    let mut hclen = 19;
+    while hclen > 4 && cl[CL_ORDER[hclen - 1]] == 0 {
+        hclen -= 1;
+    }
+    let hclen = (hclen + hclen_extra).min(19);
+    w.put((hlit - 257) as u32, 5);
+    w.put((hdist - 1) as u32, 5);
+    w.put((hclen - 4) as u32, 4);
+    for i in 0..hclen {
+        w.put(cl[CL_ORDER[i]] as u32, 3);
+    }
+    let clc = canon_codes(&cl);
+    for &(s, x) in &rle {
+        w.put_code(clc[s as usize], cl[s as usize] as u32);
+        match s {
+            16 => w.put(x as u32, 2),
+            17 => w.put(x as u32, 3),
+            18 => w.put(x as u32, 7),
+            _ => {}
+        }
+    }
+    true
+}
+
+/// literal/length code lengths forming a complete code in which `m` consecutive literals starting at
+/// `first` share one length (so that the greedy run-length coder emits symbol 16 with count m-1), or in
+/// which exactly `gap` unused symbols lie between two used literals (symbol 17/18 with count `gap`)
+pub fn directed_lengths(first: usize, m: usize, gap: usize) -> Vec<u8> {
+    let mut ll = vec![0u8; 286];
+    // m symbols of length 4 use m/16 of the code space (m <= 7)
+    for l in ll.iter_mut().skip(first).take(m) {
+        *l = 4;
+    }
+    let mut rest = 16 - m; // sixteenths still free
+    // the symbol behind the gap, then end-of-block, then fillers far away
+    let mut slots = vec![first + m + gap, 256, 230, 240, 250];
+    slots.retain(|&p| p < 286 && ll[p] == 0);
+    let mut bit = 8;
+    let mut len = 1u8;
+    let mut placed = vec![];
+    while bit >= 1 {
+        if rest >= bit {
+            placed.push(len);
+            rest -= bit;
+        }
+        bit /= 2;
+        len += 1;
+    }
+    // the Kraft sum must stay complete: if there are more slots to fill than pieces, split the last piece
+    while placed.len() < 2 {
+        let l = placed.pop().unwrap();
+        placed.push(l + 1);
+        placed.push(l + 1);
+    }
+    // end-of-block must be among the coded symbols: put pieces on slots in order, EOB included
+    if !slots[..placed.len().min(slots.len())].contains(&256) {
+        let k = placed.len().min(slots.len()) - 1;
+        slots[k] = 256;
+    }
+    for (p, l) in slots.iter().zip(placed.iter()) {
+        ll[*p] = *l;
+    }
+    ll
+}
